@@ -77,7 +77,7 @@ def build_pool(ctx, desc, inst):
     for cls in (ImprovedBottomLeftEncoding1, ImprovedBottomLeftEncoding2):
         enc = cls(inst)
         for kind in ("random", "bigfirst", "smallfirst", "random"):
-            enc.decode(wb.x_array(wb.gen_perm(rng, desc, kind), inst), y)
+            enc.decode(wb.x_buffer(wb.gen_perm(rng, desc, kind), inst), y)
             pool.append(("decoded", wb.rows_of(y), int(y.n_bins)))
     if max(desc["W"], desc["H"]) <= 40:
         for _ in range(2):
